@@ -210,6 +210,11 @@ class Resolver:
                 if i < len(events) and events[i].kind == "prop":
                     return self.ret_type(events[i].x["callee"], depth + 1)
                 return set()
+            if name.startswith("$l") and name[2:].isdigit():
+                i = int(name[2:])
+                if i < len(events) and events[i].kind == "alloc":
+                    return self.typeof(events[i].term, events[i].fn, events, depth + 1)
+                return set()
             if name.startswith("$new:"):
                 return {name[5:].split("@")[0]}
             if name.startswith("$type:"):
